@@ -203,6 +203,12 @@ def run(ctx):
         mine = [c for j, c in enumerate(allc) if j % ctx.nshards == ctx.shard]
         ctx.exhaustive['1-2 field naming configurations'] = True
 
+    # directed: class statements that must be refused, wherever the offending field stands
+    tuple_variants = [ci for ci, c in enumerate(CLASS_VARIANTS) if 'tuple' in c.get('in_format', ())]
+    directed = [(('kw_default', 'kw_required'), ci) for ci in tuple_variants] + [(('plain', 'kw_default', 'kw_required'), ci) for ci in tuple_variants] + \
+               [(('kw_required', 'kw_default'), ci) for ci in tuple_variants] + [(('default', 'plain'), 0), (('plain', 'default', 'plain'), 0), (('factory', 'plain'), 1)]
+    if ctx.shard == 0:
+        mine = directed + list(mine)
     for i, (fv, ci) in enumerate(mine):
         if not ctx.want('table', i):
             continue
@@ -215,7 +221,13 @@ def run(ctx):
                 pos_def = [f for f in fields if not f.kw_only and f.has_default()]
                 fields = pos_req + pos_def + [f for f in fields if f.kw_only]
                 if not legal(fields, copts):
-                    ctx.count('illegal_configurations_skipped')
+                    # a required field after a defaulted one, a required keyword-only field under the tuple layout: the class statement
+                    # itself refuses these (TypeError), whichever field comes first
+                    ctx.count('illegal_configurations_checked')
+                    Sx = ClassM(f"K{next(_serial)}", fields, copts)
+                    bx = observe(lambda: build(Ty('dc', spec=Sx)))
+                    if bx.kind == 'value' or not isinstance(bx.exc, TypeError):
+                        ctx.violation('decision-table', 'table', i, {'class': Sx.brief(), 'class_definition': bx.brief()}, mech='illegal-configuration-accepted')
                     continue
                 S = ClassM(f"K{next(_serial)}", fields, copts)
                 ty = Ty('dc', spec=S)
